@@ -284,28 +284,44 @@ func loadAdapterTables(c *Ctx, a adapterInfo, rule string) *adapterTables {
 		return nil
 	}
 	t := &adapterTables{rounds: map[string]int64{}, broadcast: map[string]bool{}, expected: map[string]bool{}, phase: map[string]string{}}
-	rl, pos, ok := mapLiteral(p, "msgURL2Round")
-	if !ok {
-		c.Fatalf("anchor", "%s: msgURL2Round is not a map literal with constant string keys", a.pkg)
+	// the tables as package initialisation leaves them, whatever source form builds them
+	sp := m.SSAPkg(a.pkg)
+	ev, err := evalPackageInit(sp)
+	if err != nil {
+		c.Fatalf("anchor", "%s: cannot evaluate the package initialisation that builds the message tables: %v", a.pkg, err)
 		return nil
 	}
-	t.roundsPos = pos
-	for k, e := range rl {
-		tv, ok := p.TypesInfo.Types[e]
-		if !ok || tv.Value == nil {
-			c.Fatalf("anchor", "%s: msgURL2Round[%q] is not constant", a.pkg, k)
+	rm, ok := ev.mapOf(sp, "msgURL2Round")
+	if !ok {
+		c.Fatalf("anchor", "%s: msgURL2Round is not a package-level map built at initialisation", a.pkg)
+		return nil
+	}
+	t.roundsPos = rm.pos
+	if g, ok := sp.Members["msgURL2Round"].(*ssa.Global); ok && g.Pos().IsValid() {
+		t.roundsPos = g.Pos()
+	}
+	for _, k := range rm.keys {
+		kv, isK := rm.m[k].(constant.Value)
+		if !isK || kv.Kind() != constant.Int {
+			c.Fatalf("anchor", "%s: msgURL2Round[%q] is not a constant of the initialisation code", a.pkg, k)
 			return nil
 		}
-		v, _ := constant.Int64Val(tv.Value)
+		v, _ := constant.Int64Val(kv)
 		t.rounds[k] = v
 	}
-	bl, pos2, ok := mapLiteral(p, "broadcastMessages")
+	bm, ok := ev.mapOf(sp, "broadcastMessages")
 	if !ok {
-		c.Fatalf("anchor", "%s: broadcastMessages is not a map literal with constant string keys", a.pkg)
+		c.Fatalf("anchor", "%s: broadcastMessages is not a package-level map built at initialisation", a.pkg)
 		return nil
 	}
-	t.bcastPos = pos2
-	for k := range bl {
+	t.bcastPos = bm.pos
+	if g, ok := sp.Members["broadcastMessages"].(*ssa.Global); ok && g.Pos().IsValid() {
+		t.bcastPos = g.Pos()
+	}
+	for _, k := range bm.keys {
+		if kv, isK := bm.m[k].(constant.Value); isK && kv.Kind() == constant.Bool && !constant.BoolVal(kv) {
+			continue // a map to bool with an explicit false
+		}
 		t.broadcast[k] = true
 	}
 	for _, ph := range []string{"keygen", "signing"} {
@@ -524,12 +540,12 @@ func checkC19(c *Ctx) {
 				switch x := in.(type) {
 				case *ssa.MapUpdate:
 					if g := globalOf(x.Map); g == "msgURL2Round" || g == "broadcastMessages" {
-						if fn.Name() != "init" {
+						if !isInitFunc(fn) {
 							bad = g
 						}
 					}
 				case *ssa.Store:
-					if g, ok := x.Addr.(*ssa.Global); ok && (g.Name() == "msgURL2Round" || g.Name() == "broadcastMessages") && fn.Name() != "init" {
+					if g, ok := x.Addr.(*ssa.Global); ok && (g.Name() == "msgURL2Round" || g.Name() == "broadcastMessages") && !isInitFunc(fn) {
 						bad = g.Name()
 					}
 				case *ssa.Call:
@@ -567,7 +583,7 @@ func ruleAdapterClassifyProvenance(c *Ctx, rule string, a adapterInfo) {
 	var anyAlloc ssa.Value
 	for _, in := range instrsOf(fn) {
 		if cl, ok := in.(*ssa.Call); ok {
-			if o := calleeObj(&cl.Call); o != nil && o.Name() == "Unmarshal" && len(cl.Call.Args) == 2 && strip(cl.Call.Args[0]) == ssa.Value(fn.Params[1]) {
+			if o := calleeObj(&cl.Call); o != nil && o.Name() == "Unmarshal" && len(cl.Call.Args) == 2 && strip(cl.Call.Args[0]) == strip(fn.Params[1]) {
 				anyAlloc = strip(cl.Call.Args[1])
 			}
 		}
@@ -634,7 +650,7 @@ func ruleAdapterSenderBinding(c *Ctx, rule string, a adapterInfo) {
 				return false
 			}
 			for _, pr := range [][2]ssa.Value{{f.X, f.Y}, {f.Y, f.X}} {
-				if strip(pr[1]) != ssa.Value(from) {
+				if strip(pr[1]) != strip(from) {
 					continue
 				}
 				if chainTo(pr[0], func(v ssa.Value) bool {
@@ -800,7 +816,7 @@ func ruleAdapterSeatBinding(c *Ctx, rule string, a adapterInfo) {
 		var root ssa.Value
 		chainTo(strip(v), func(x ssa.Value) bool {
 			x = strip(x)
-			if x == ssa.Value(idParam) {
+			if x == strip(idParam) {
 				root = x
 				return true
 			}
@@ -851,7 +867,7 @@ func ruleAdapterSeatBinding(c *Ctx, rule string, a adapterInfo) {
 			}
 			for _, pr := range [][2]ssa.Value{{x, y}, {y, x}} {
 				ia, isIA := keyRoot(pr[0]).(*ssa.IndexAddr)
-				if !isIA || keyRoot(pr[1]) != ssa.Value(idParam) {
+				if !isIA || keyRoot(pr[1]) != strip(idParam) {
 					continue
 				}
 				if sameValue(ia.Index, res) || strip(ia.Index) == strip(res) {
@@ -867,4 +883,10 @@ func ruleAdapterSeatBinding(c *Ctx, rule string, a adapterInfo) {
 	if nRet == 0 {
 		c.Bad(rule, FuncName(locate), "seat lookup", "-", "the lookup never returns a seat")
 	}
+}
+
+// isInitFunc: the package initialiser or one of the source-level init() functions (named init#N in SSA),
+// whose effect on the tables is what evalPackageInit computes.
+func isInitFunc(fn *ssa.Function) bool {
+	return fn.Parent() == nil && fn.Signature.Recv() == nil && (fn.Name() == "init" || strings.HasPrefix(fn.Name(), "init#"))
 }
